@@ -373,17 +373,22 @@ def run_e2e(acc, clastic, shard, nshards, maxel, maxsegs):
                 must, may = R.ref_match(relems, branch, mode, eff)
                 del seen[:]
                 status = []
-                body = app(_environ(path), lambda s, h, e=None: status.append(s))
-                try:
-                    b''.join(body)
-                finally:
-                    if hasattr(body, 'close'):
-                        body.close()
                 acc.evaluated += 1
                 acc.transitions += 1
                 acc.validated += 1
-                code = status[0][:3] if status else 'none'
                 case = {'kind': 'e2e', 'pattern': ptext, 'mode': mode, 'path': path}
+                try:
+                    body = app(_environ(path), lambda s, h, e=None: status.append(s))
+                    try:
+                        b''.join(body)
+                    finally:
+                        if hasattr(body, 'close'):
+                            body.close()
+                except Exception as e:
+                    acc.violation('C05:e2e-raised:%s:%s' % (mode, type(e).__name__),
+                                  '%r (%s) request %r made the application raise %r' % (ptext, mode, path, e), case)
+                    continue
+                code = status[0][:3] if status else 'none'
                 if code == '200':
                     acc.outcome('e2e:200')
                     if not may:
